@@ -41,13 +41,16 @@ typedef struct vif {
     uint32_t fail;           /* VF_* mask */
     /* statistics: calls per getter (for "fault was actually hit") */
     uint32_t calls_mask;
+    uint32_t calls[16];      /* calls per getter, indexed by the bit number of its VF_* flag */
+    uint32_t fail_nth_mask;  /* one-shot fault: the fail_nth-th call (counted over the getters in this mask) fails once */
+    long     fail_nth;
 } vif;
 
 typedef struct vp_global_cfg {
     uint8_t  hostname[64]; size_t hostname_len; int hostname_untrunc;
     uint8_t *icon; size_t icon_len;          /* harness-owned; port hands out a ledger copy */
     uint8_t *friendly; size_t friendly_len;
-    uint8_t  hwid[64]; size_t hwid_len;      /* bytes copied into dst (<= dst_len) */
+    uint8_t  hwid[160]; size_t hwid_len; int hwid_untrunc;   /* copied into dst up to dst_len; the return value is the copied or (untrunc) the full length */
     uint8_t  uuid[16];
     uint8_t  url[64]; size_t url_len;
     uint32_t fail;                           /* VG_* mask */
